@@ -132,7 +132,7 @@ pub fn verif_smallvec<'a, const N: usize>(v: Vec<&'a [u8]>) -> (r: SmallVec<[&'a
 pub open spec fn concat(c: Seq<Seq<Tok>>) -> Seq<Tok> decreases c.len() {
     if c.len() == 0 { Seq::<Tok>::empty() } else { concat(c.drop_last()) + c.last() }
 }
-// write_all_vectored (buf.rs; its retry loop is NOT verified, see C16): on success the writer received exactly the
+// write_all_vectored (buf.rs; this contract is discharged on the real retry loop in unit emf_wav, C16): on success the writer received exactly the
 // concatenation of the buffers, once; on failure it received some prefix of it (not recorded here)
 #[verifier::external_body]
 pub fn write_all_vectored<V, const N: usize>(bufs: SmallVec<[V; N]>, output: &mut impl io::Write) -> (r: io::Result<()>)
